@@ -78,6 +78,9 @@ pub fn universe(sc: &uni::Scratch, name: &str) -> Tree {
 					12 => Some(5),
 					70 => Some(60),
 					85 => Some(75),
+					// the head at compaction time spends an old output whose MMR sibling (coinbase 5,
+					// spent at 12) is already spent: after the compaction that data must survive a reorg
+					90 => Some(4),
 					_ => None,
 				};
 				if let Some(cb) = spend {
